@@ -1,4 +1,97 @@
-(** Harness glue for C20 (stub: no families yet). *)
-From Coq Require Import List String.
-From KV Require Import Glue.Val.
-Definition c20_run (fam : string) (args : list val) : option string := None.
+(** Harness glue for C20.
+
+    Families (args -> model column):
+      c20.concat       form kind list        str_concat!(list); kind s: list of byte strings,
+                                             kind c: list of chars (u32); form [lit] = the
+                                             argument is written inline (an inline empty list
+                                             hits the macro's literal-[] arm)
+      c20.join         form sepkind sep list str_join!(sep, list)
+      c20.from_iter    kind list             string::from_iter!(iterator yielding list)
+      c20.slice_concat list-of-lists         slice_concat!(T, list) (integers)
+      c20.cstr         bytes                 ffi::cstr constructors + conversions
+      c20.cstr_err     bytes                 which error from_bytes_with_nul reports
+    usize is 64 bits in the harness. *)
+From Coq Require Import List ZArith Bool String.
+From KV Require Import Base.Prelude Model.Utf8 Model.Utf8Check Model.Concat Model.CStr Glue.Val.
+Import ListNotations.
+Local Open Scope string_scope.
+
+Definition c20_w : Z := 64.
+
+Definition show_res {A} (f : A -> string) (r : res A) : string :=
+  match r with Done a => f a | Panic => "PANIC" | UB => "UB" end.
+
+Definition as_strs (v : val) : list (list Z) := map as_bytes (as_list v).
+Definition as_ints (v : val) : list Z := map as_Z (as_list v).
+
+Definition is_lit (form : val) : bool := String.eqb (as_atom form) "lit".
+Definition is_nil {A} (l : list A) : bool := match l with [] => true | _ => false end.
+
+Definition c20_concat (form kind l : val) : string :=
+  if String.eqb (as_atom kind) "s" then
+    let ss := as_strs l in
+    show_res show_bytes (str_concat_m c20_w (is_lit form && is_nil ss) (AStr ss))
+  else
+    let cs := as_ints l in
+    show_res show_bytes (str_concat_m c20_w (is_lit form && is_nil cs) (AChar cs)).
+
+Definition c20_join (form sepkind sep l : val) : string :=
+  let ss := as_strs l in
+  let s := if String.eqb (as_atom sepkind) "s" then SStr (as_bytes sep) else SChar (as_Z sep) in
+  show_res show_bytes (str_join_m c20_w (is_lit form && is_nil ss) s ss).
+
+Definition c20_from_iter (kind l : val) : string :=
+  let items := if String.eqb (as_atom kind) "s" then map EStr (as_strs l) else map EChr (as_ints l) in
+  show_res show_bytes (from_iter_m c20_w items).
+
+Definition c20_slice_concat (l : val) : string :=
+  show_res (show_list show_Z) (slice_concat_m c20_w (map as_ints (as_list l))).
+
+(** a CStr is a sub-slice of the argument starting at offset 0 *)
+Definition show_cstr (c : list Z) : string := show_view 0 (zlen c).
+
+Definition show_conv {A} (f : A -> string) (r : conv_res A) : string :=
+  match r with CDone a => f a | CUnreachable => "PANIC" | CUB => "UB" end.
+
+(** the conversions, applied to the CStr [from_bytes_until_nul] made: its pointer is the
+    argument's, so the memory the pointer walk sees is the whole argument *)
+Definition c20_conv (bytes : list Z) : string :=
+  "(" ++ match to_bytes_with_nul_m bytes with Some s => show_cstr s | None => "UB" end
+      ++ "," ++ show_conv show_cstr (to_bytes_m bytes)
+      ++ "," ++ show_conv (show_opt show_cstr) (to_str_m bytes) ++ ")".
+
+Definition c20_cstr (bytes : list Z) : string :=
+  show_fields
+    [("until", show_opt show_cstr (from_bytes_until_nul_m bytes));
+     ("with", match from_bytes_with_nul_m bytes with
+              | WOk c => "S(" ++ show_cstr c ++ ")"
+              | WPanic => "PANIC"
+              | _ => "N"
+              end);
+     ("conv", match from_bytes_until_nul_m bytes with
+              | Some _ => "S" ++ c20_conv bytes
+              | None => "N"
+              end)].
+
+Definition c20_cstr_err (bytes : list Z) : string :=
+  match from_bytes_with_nul_m bytes with
+  | WOk _ => "ok"
+  | WNotNulTerminated => "notterm"
+  | WInternalNul p => "interior(" ++ show_Z p ++ ")"
+  | WPanic => "PANIC"
+  end.
+
+Definition c20_run (fam : string) (args : list val) : option string :=
+  if String.eqb fam "c20.concat" then
+    match args with [form; kind; l] => Some (c20_concat form kind l) | _ => None end
+  else if String.eqb fam "c20.join" then
+    match args with [form; sk; sep; l] => Some (c20_join form sk sep l) | _ => None end
+  else if String.eqb fam "c20.from_iter" then
+    match args with [kind; l] => Some (c20_from_iter kind l) | _ => None end
+  else if String.eqb fam "c20.slice_concat" then
+    match args with [l] => Some (c20_slice_concat l) | _ => None end
+  else if String.eqb fam "c20.cstr" then
+    match args with [b] => Some (c20_cstr (as_bytes b)) | _ => None end
+  else if String.eqb fam "c20.cstr_err" then
+    match args with [b] => Some (c20_cstr_err (as_bytes b)) | _ => None end
+  else None.
